@@ -384,6 +384,7 @@ static struct cat_io_interface io_if = { io_write, io_read };
 /* an application sets the descriptor's flags from whatever truthy value it has at hand (`cfg & 0x04`): the flags are `bool`, so any
    non-zero value means true */
 static volatile int truthy = 4;
+static int obj_fill = 0xCC;
 #define FLAGVAL(cond) ((cond) ? truthy : 0)
 static struct cat_mutex_interface mtx_if = { mtx_lock, mtx_unlock };
 /* `mutex 2`: the interface is handed to cat_init before its functions are known and completed right after (the library keeps the pointer) */
@@ -473,7 +474,7 @@ static void do_init(void)
         desc.buf_size = buf_size;
         desc.unsolicited_buf = ubuf;
         desc.unsolicited_buf_size = (uns_size >= 0) ? (size_t)uns_size : 0;
-        memset(&obj, 0xCC, sizeof(obj));
+        memset(&obj, obj_fill, sizeof(obj));
         if (use_mutex == 2) {
                 memset(&mtx_late, 0, sizeof(mtx_late));
                 cat_init(&obj, &desc, &io_if, &mtx_late);
@@ -570,6 +571,9 @@ int main(void)
                         scn_reset();
                         ref_val = 0;
                         opno = 0;
+                        /* what the object holds before cat_init: 0xCC (an invalid bool: UBSan reports a flag read before it is set) for
+                           half of the scenarios, 0x01 (every flag reads as true, nothing is reported) for the other half */
+                        { unsigned h = 0; const char *q = nt > 1 ? tok[1] : ""; while (*q) h = h * 31u + (unsigned char)*q++; obj_fill = (h & 1u) ? 0xCC : 0x01; }
                         printf("scn %s\n", nt > 1 ? tok[1] : "?");
                         fflush(stdout);
                         continue;
